@@ -154,6 +154,7 @@ Section Sim.
   Variable E : list vote.               (* the votes of everybody else *)
   Hypothesis E_ok : forall v, In v E -> 0 <= v_from v < Z.of_nat n /\ 0 <= v_round v /\ v_from v <> own.
   Variable T0 : TM.state.               (* abstract state when the event begins *)
+  Variable K0 : vote -> Prop.           (* votes known when the event begins *)
 
   Lemma Hown : 0 <= own < Z.of_nat n.
   Proof. lia. Qed.
@@ -178,7 +179,8 @@ Section Sim.
     sm_dec : forall b, decided s = Some b -> TM.decided T i = Some b;
     sm_round : 0 <= round s;
     sm_sent : forall r t d k, In (SVote r t d k) (sent s) -> 0 <= r;
-    sm_fuse : fuse s = None
+    sm_fuse : fuse s = None;
+    sm_k0 : forall v, K0 v -> known s v
   }.
 
   Lemma frame_refl : frame T0.
@@ -207,6 +209,7 @@ Section Sim.
     - rewrite (ss_round S). auto.
     - intros r t d k Hk. apply (ss_sent S) in Hk. eauto.
     - rewrite (ss_fuse S). auto.
+    - intros v Hv. eapply known_ssame; eauto.
   Qed.
 
   (* the engine stops (panic) or finishes: nothing is claimed about the lock any more *)
@@ -416,6 +419,7 @@ Section Sim.
     - intros r0 t0 d0 k0 K. rewrite Es in K. apply In_app_one in K as [K|K]; [eapply (sm_sent H); eauto|].
       inversion K; subst. apply (sm_round H).
     - subst s'. rewrite send3_none; auto.
+    - intros v Hv. apply Mono. apply (sm_k0 H); auto.
   Qed.
 
   (* ---------------- finalize ---------------- *)
